@@ -1,6 +1,7 @@
 package main
 
 import (
+	"os"
 	"strings"
 
 	"verifharness/core"
@@ -48,6 +49,10 @@ func c04Merge(base any, overs []any, unicity, extend bool) map[string]any {
 
 func runC04(ctx *core.Ctx) {
 	g := &c04g{r: ctx.Rng}
+	if os.Getenv("C04_STREAM") == "oracle" { // development aid: only the direct oracle
+		runC04Oracle(ctx, g)
+		return
+	}
 
 	// ---- 1. tree.Path: exhaustive key sequences × patterns
 	pkeys := []string{"a", "a.b", "*", "", "services", "👻", "a👻b", "x.y.z", "[0]", "labels"}
